@@ -1,5 +1,7 @@
 //! mqtt-verif: runtime monitors for the ntex-mqtt properties C01..C20 (see /verif/DESIGN.md).
 #![allow(dead_code, unused_imports, clippy::too_many_arguments, clippy::type_complexity, clippy::collapsible_if)]
+mod app;
+mod conn;
 mod genpkt;
 mod libcodec;
 mod map;
@@ -8,6 +10,7 @@ mod props;
 mod refcodec;
 mod report;
 mod rt;
+mod sink;
 
 use report::{Opts, Tier};
 
